@@ -333,7 +333,8 @@ theorem C11_generated_avoid_reads_and_namespace (f : UserFn) (reqs : List Req) (
     rw [List.map_fst_zip (by omega)]
     exact (namer_distinct _ _).1
 
-/-- **C11_disjoint_partial.**  If every name the function binds is also reserved (read, or in the namespace), its free
+/-- **C11_disjoint_partial.**  If every name the function binds that is a variant of a converter root is also reserved
+(read, or in the namespace), its free
 names are in the namespace snapshot (or unrelated to the transpiler's roots), it does not use the hard-coded
 identifiers and its transformed name does not collapse onto one, then: no converter-level name is a user name; no
 transpiler-level name is a free name of the function or a namespace key; no hard-coded identifier is a user name or
@@ -352,7 +353,11 @@ theorem C11_disjoint_partial (f : UserFn) (reqs : List Req) (hc : ConvOf f reqs)
     unfold UserFn.userNames at hu
     simp only [List.mem_append] at hu
     rcases hu with (hb | hr) | hn
-    · rcases h1 x hb with hr | hn
+    · obtain ⟨p, hp, hl, rfl⟩ := mem_converterNames hx
+      obtain ⟨hreq, _, _, hv⟩ := mem_produced hp
+      have hvar : Gen.Naming.converterRoots.any (fun r => isVariant r p.1) = true :=
+        List.any_eq_true.mpr ⟨p.2.call.root, h5 p.2 hreq hl, hv⟩
+      rcases h1 p.1 hb hvar with hr | hn
       · exact this.1 hr
       · exact this.2 hn
     · exact this.1 hr
@@ -464,6 +469,15 @@ def cexNestedReqs : List Req := [⟨.transpiler, ⟨"ag__f1", []⟩⟩, ⟨.conv
 example : ConvOf cexNested cexNestedReqs ∧ "fscope" ∈ converterNames cexNested cexNestedReqs ∧
     "fscope" ∈ cexNested.userNames ∧ ¬ BoundNamesReserved cexNested ∧
     clsNestedBound cexNested (cexNestedReqs.map (·.call.root)) "fscope" = true := by decide
+
+/-- `f = lambda lscope, b, c: tr(1, lscope) + tr(2, b)` converted as an entity: `FunctionTransformer.visit_Lambda`
+reserves the scope of the Lambda NODE (its definition context, which receives only `read - bound` of the lambda), so seen
+from the reserved set the lambda's own body is a nested scope and its parameters are never reserved. -/
+def cexLambda : UserFn :=
+  { name := "lam", bound := ["lscope", "b", "c"], read := ["tr"], readLocal := ["lscope", "b"], free := ["tr"], ns := ["tr", "f"] }
+def cexLambdaReqs : List Req := [⟨.transpiler, ⟨"ag__lam", []⟩⟩, ⟨.converter, ⟨"lscope", ["tr"]⟩⟩]
+example : ConvOf cexLambda cexLambdaReqs ∧ "lscope" ∈ converterNames cexLambda cexLambdaReqs ∧
+    "lscope" ∈ cexLambda.userNames ∧ clsNestedBound cexLambda (cexLambdaReqs.map (·.call.root)) "lscope" = true := by decide
 
 /-- `def p4(a): return inner_factory + a` with the global `inner_factory` defined after conversion. -/
 def cexLate : UserFn :=
